@@ -294,6 +294,8 @@ gint g_ascii_strncasecmp (const gchar *s1, const gchar *s2, gsize n);
 gint64 g_ascii_strtoll (const gchar *nptr, gchar **endptr, guint base);
 guint64 g_ascii_strtoull (const gchar *nptr, gchar **endptr, guint base);
 gdouble g_ascii_strtod (const gchar *nptr, gchar **endptr);
+gchar *g_ascii_formatd (gchar *buffer, gint buf_len, const gchar *format, gdouble d);
+gchar *g_ascii_dtostr (gchar *buffer, gint buf_len, gdouble d);
 gchar *g_ascii_strdown (const gchar *str, gssize len);
 gchar *g_ascii_strup (const gchar *str, gssize len);
 gchar g_ascii_tolower (gchar c);
